@@ -207,6 +207,33 @@ func genFuncR(p *Program, w *World, fn *ssa.Function, con *Contract, excepts map
 			e.Assumptions["package-invariant:"+shortPkg(iv.Pkg)+"."+iv.Clause.ID+" (proved for the package initialiser and for functions under contract; assumed preserved by all other code)"] = true
 		}
 	}
+	// lock discipline: a function is entered with no lock held, except those its contract requires
+	// (requires held(x)); enforced at call sites by the lockorder obligations
+	{
+		e.regHeap("G.$held", "(Array Int Bool)")
+		heldAtEntry := noLocks
+		if con != nil {
+			for _, r := range con.Requires {
+				for _, hx := range heldConjuncts(r.E) {
+					hv := env.elab(hx)
+					heldAtEntry = app("store", heldAtEntry, hv.T, "true")
+				}
+			}
+		}
+		if ref != nil {
+			ienv := *env
+			ienv.Imports = ref.Impl.Imports
+			ienv.Pkg = ref.Impl.Pkg
+			for _, r := range ref.Impl.Requires {
+				for _, hx := range heldConjuncts(r.E) {
+					hv := ienv.elab(hx)
+					heldAtEntry = app("store", heldAtEntry, hv.T, "true")
+				}
+			}
+		}
+		e.S.assume(eq(e.get(st0, "G.$held"), heldAtEntry))
+		e.Assumptions["A-LOCK-ENTRY: a function is entered holding exactly the locks its contract requires (checked at call sites by the lockorder obligations of property C16)"] = true
+	}
 	// lemmas the contract says it uses: assumed here, proved as obligations of their own
 	if con != nil {
 		for _, ln := range con.Uses {
@@ -250,6 +277,10 @@ func genFuncR(p *Program, w *World, fn *ssa.Function, con *Contract, excepts map
 		env.Where = saved
 	}
 	rets, out := e.runFunc(fn, args, fvs, st0, "top")
+	// lock discipline: every return leaves the lock set as it was at entry
+	for ri, r := range e.topRets {
+		e.oblig(r.st, "lockbalance", fmt.Sprintf("ret%d", ri+1), eq(e.get(r.st, "G.$held"), e.get(st0, "G.$held")), "locks held at return are those held at entry", r.pos)
+	}
 	if len(pkgInvs) > 0 && (con != nil || isInit) {
 		for ri, r := range e.topRets {
 			for _, iv := range pkgInvs {
@@ -583,4 +614,20 @@ func implementations(p *Program, m *types.Func) []*ssa.Function {
 		}
 	}
 	return out
+}
+
+
+// heldConjuncts: the arguments x of the top-level conjuncts held(x) of a requires clause.
+func heldConjuncts(x Expr) []Expr {
+	switch y := x.(type) {
+	case *EBin:
+		if y.Op == "&&" {
+			return append(heldConjuncts(y.X), heldConjuncts(y.Y)...)
+		}
+	case *ECall:
+		if y.Fun == "held" && y.Recv == nil && len(y.Args) == 1 {
+			return []Expr{y.Args[0]}
+		}
+	}
+	return nil
 }
